@@ -142,7 +142,10 @@ class AgeStatistics:
     def process_state(self, metric_state: AbstractMetricStateContainer):
         """Append age of metric_state to internal list."""
         try:
-            age = time.time() - metric_state.MetricValue.DeterminationTime
+            determination_time = metric_state.MetricValue.DeterminationTime
+            if determination_time is None:
+                return  # DeterminationTime is optional, there is no age without it
+            age = time.time() - determination_time
             with self._lock:
                 self._age_of_data_list.append(age)
         except AttributeError as ex:
